@@ -357,7 +357,8 @@ def gen_decks(outdir: str) -> list[str]:
     p = os.path.join(outdir, "gen-shapes.pptx")
     prs.save(p)
     out.append(p)
-    # three slides with notes pages whose slide PART NAMES are neither contiguous nor in presentation order (slide7, slide2, slide13):
+    # three slides with notes pages whose slide PART NAMES are neither contiguous nor in presentation order (slide3, slide1, slide4: the
+    # name a count-based allocator would give the next slide - slide4 - is taken):
     # the first read of prs.slides renames the parts - every relationship that leads to them has to follow
     prs = pptx.Presentation()
     for k in range(3):
@@ -367,7 +368,7 @@ def gen_decks(outdir: str) -> list[str]:
     b = io.BytesIO()
     prs.save(b)
     members = D.read_zip(io.BytesIO(b.getvalue()))
-    nums = [7, 2, 13]
+    nums = [3, 1, 4]
     tmp = {"/ppt/slides/slide%d.xml" % (k + 1): "/ppt/slides/slideTMP%d.xml" % (k + 1) for k in range(3)}
     fin = {"/ppt/slides/slideTMP%d.xml" % (k + 1): "/ppt/slides/slide%d.xml" % nums[k] for k in range(3)}
     members = F.rename_parts(F.rename_parts(members, tmp), fin)
